@@ -2,6 +2,7 @@
 //! unit group over the hand-written field `K271`.  See NOTES.md.
 #![allow(non_snake_case)]
 pub mod k271;
+pub mod scenario;
 pub mod stubs;
 pub mod unit;
 
